@@ -3,7 +3,7 @@
 import json, subprocess
 
 HOOK_COMMITS = ["e053b92", "db39081", "909497b", "a3ef4cc"]
-FIX_COMMITS = ["d1834d6", "696a10e", "54f6b98", "8cadbec", "1d570ec", "ada398b", "3cdf850", "86f4ed9", "cac2ae1", "749f9e1", "6852bbb", "79a1448", "10810c0", "76552f0", "f89c303", "e2f472c", "6328c42", "4d43097", "8176551", "dcae5d6"]
+FIX_COMMITS = ["d1834d6", "696a10e", "54f6b98", "8cadbec", "1d570ec", "ada398b", "3cdf850", "86f4ed9", "cac2ae1", "749f9e1", "6852bbb", "79a1448", "10810c0", "76552f0", "f89c303", "e2f472c", "6328c42", "4d43097", "8176551", "dcae5d6", "ab8aba2"]
 
 NOTE_COMMON = ("trusted base: tokio current-thread scheduler + paused clock, the simnet link, the refproto reference codec/model; "
                "interleavings explored at task-poll granularity on one thread; a clean batch is evidence, not proof")
@@ -19,6 +19,8 @@ CHECKS = {
             "deterministic simulation + fault injection; label-bijection oracle over all delivered halves"),
     "C06": ("fault_enumeration", "§4 C06", "two fixed mixed chmux workloads (handshake, port opens, chunked transfers both ways, port batch, pending connect/accept/closed()/recv, idle tail with pings); every frame index x direction x fault kind (sink error, stream error, EOF, silent stall both ways, one-directional stall) is executed under N seeded schedules; oracle = both dispatchers end with Err by timeout+eps, every outstanding and fresh operation errors in bounded virtual time, no orderly end-of-stream is reported, received is a prefix of sent; points beyond the traffic exercise the idle-survival clause (hours of virtual idle time, then a transfer)",
             "deterministic simulation; exhaustive enumeration of transport cut points x fault kinds, seeded schedules per point"),
+    "C09": ("exploration", "§4 C09", "(i) every frame a real endpoint emits in real-real workloads is strictly decoded and canonically re-encoded by an independent reference codec frozen from the v3 layout; (ii) coverage driver + completeness self-test: every message kind and flag combination must be observed; (iii) real endpoint against the scripted reference peer speaking v3 and v2 with boundary Hello values, junk before Hello, id-less OpenPort/PortData, credit and chunk discipline, label echo over ports opened in both directions; (iv) Connect::io through an independent length-prefix parser that re-chunks the byte stream",
+            "deterministic simulation; reference-codec differential oracle + scripted reference peer (refinement of the frozen layout)"),
     "C10": ("exploration", "§4 C10", "1-3 client actors issue default connect(), connect_ext(wait/no-wait, PortReq ids), cancelled connects and Connect::sent()+marker message; a listener actor draws accept / inspect+accept / accept_from / reject / reject(no_ports) / drop per request, with cancelled accepts; max_ports 2-8, connect_queue 1-4, every Cfg::ports_exhausted policy; oracle = no request pending at quiescence, client outcome equals the listener's recorded decision per request id, accepted pairs echo their own label on both legs, a request reported as sent is obtainable from the listener before later data arrives, unanswered OpenPort frames never exceed the advertised connect queue (wire monitor), exhaustion policy clause",
             "deterministic simulation + fault injection (cancellation); decision-log oracle + wire monitor"),
     "C11": ("fault_enumeration", "§4 C11", "position enumeration: channel type (raw port, base, remote mpsc with 1-3 senders) x event (all senders dropped, receiver close, receiver drop) x position 0..6 in a stream of 6 messages x inside/outside a message, each under N seeded schedules; oracle = received == completed sends (close / sender drop) or prefix (receiver drop), end-of-stream only after everything, error classification (Closed gracefully / not gracefully, mpsc closed_reason Closed/Dropped), Sending handles acknowledged exactly the received values",
